@@ -99,9 +99,35 @@ func verifInWindow(c *x509.Certificate, t time.Time) bool {
 	return !t.Before(c.NotBefore) && !t.After(c.NotAfter)
 }
 
+// verifUsageOK: documented contract of VerifyOptions.KeyUsages: a certificate without extended
+// key usages (or with ExtKeyUsageAny) allows every usage; otherwise one of the requested usages
+// (default: server authentication) must be listed.
+func verifUsageOK(c *x509.Certificate, want []x509.ExtKeyUsage) bool {
+	if len(c.ExtKeyUsage) == 0 && len(c.UnknownExtKeyUsage) == 0 {
+		return true
+	}
+	if len(want) == 0 {
+		want = []x509.ExtKeyUsage{x509.ExtKeyUsageServerAuth}
+	}
+	for _, have := range c.ExtKeyUsage {
+		if have == x509.ExtKeyUsageAny {
+			return true
+		}
+		for _, w := range want {
+			if w == x509.ExtKeyUsageAny || w == have {
+				return true
+			}
+		}
+	}
+	return false
+}
+
 func verifCertVerify(c *x509.Certificate, opts x509.VerifyOptions) ([][]*x509.Certificate, error) {
 	rec := verifRecOf(c)
 	if rec == nil || rec.parent == nil {
+		return nil, verifErrFault
+	}
+	if !verifUsageOK(c, opts.KeyUsages) || !verifUsageOK(rec.parent, opts.KeyUsages) {
 		return nil, verifErrFault
 	}
 	for i, p := range verifPools {
